@@ -385,13 +385,19 @@ def solve_task(task):
         if r == 'sat':
             # e-matching without MBQI reported sat on a quantified problem: candidate model, confirm below
             cand = model
-    # cvc5
-    r, dt = _cvc5(smt2, timeout_ms, has_strings)
-    total += dt
-    tried.append(('cvc5', r, round(dt, 3)))
+    # cvc5 (not in the patient second pass: it had its turn in the first)
+    patient = len(task) > 7 and task[7]
+    if patient:
+        r, dt = 'unknown', 0.0
+    else:
+        r, dt = _cvc5(smt2, timeout_ms, has_strings)
+        total += dt
+        tried.append(('cvc5', r, round(dt, 3)))
     if r == 'unsat':
         return {'idx': idx, 'status': 'proved', 'backend': 'cvc5', 'time': total, 'tried': tried}
-    if has_quant:
+    # 'z3-mbqi' is the default configuration under another name: it is only worth a stage of its own when 'z3-default' has not
+    # already had the full budget
+    if has_quant and not any(c == 'z3-default' for c, _, _ in tried):
         try:
             r2, dt2, model, why = _check_once(smt2, 'z3-mbqi', timeout_ms)
         except z3.Z3Exception as e:
@@ -452,7 +458,7 @@ def uses_strings(smt2):
     return 'String' in smt2 or 'str.' in smt2 or 're.' in smt2
 
 
-def discharge(obligations, timeout_s=10, pool=None):
+def discharge(obligations, timeout_s=10, pool=None, second_pass=True):
     """Returns list of result dicts aligned with obligations."""
     tasks = []
     axioms = ops.pow2_axioms()
@@ -478,13 +484,13 @@ def discharge(obligations, timeout_s=10, pool=None):
         if own:
             pool.close()
             pool.join()
-    # second, patient pass for whatever stayed undecided: few processes (the first pass may have been starved by other work
-    # on the machine), four times the budget, a long MBQI stage.  Verdicts `proved` / `refuted` of the first pass are final.
+    # second, patient pass for whatever stayed undecided: half the processes (the first pass may have been starved by other
+    # work on the machine), twice the budget (30 to 90 s), a long MBQI stage, no cvc5.  Verdicts `proved` / `refuted` of the first pass are final.
     again = [i for i, (r, t) in enumerate(zip(res, tasks)) if r['status'] == 'unknown' and not t[5] and not getattr(obligations[i], 'known_short', False)]
-    if again and len(again) <= 12 and not os.environ.get('PYVC_NO_RETRY'):
+    if again and len(again) <= 12 and second_pass and not os.environ.get('PYVC_NO_RETRY'):
         # (many undecided obligations at once mean a changed tree with false obligations, not a starved solver: no second pass)
-        tasks2 = [tasks[i][:4] + (min(max(tasks[i][4] * 3, 45000), 120000),) + tasks[i][5:7] + (True,) + tasks[i][8:9] for i in again]
-        pool2 = multiprocessing.get_context('fork').Pool(min(4, len(tasks2)))
+        tasks2 = [tasks[i][:4] + (min(max(tasks[i][4] * 2, 30000), 90000),) + tasks[i][5:7] + (True,) + tasks[i][8:9] for i in again]
+        pool2 = multiprocessing.get_context('fork').Pool(min(8, len(tasks2)))
         try:
             res2 = pool2.map(solve_task, tasks2, chunksize=1)
         finally:
